@@ -40,18 +40,19 @@ try:
 finally:
     sh("git -C /repo worktree remove --force %s" % wt)
 res["confirmed"] = all(res.get(k) for k in ("patch_applies", "builds", "existing_tests_pass", "demo_fails_with_change", "demo_passes_without_change"))
-# run the checks on /repo with the change applied
-rc, out = sh("git -C /repo status --porcelain")
+# run the checks on /repo (or the worktree named by VERIF_EVAL_REPO) with the change applied
+REPO = os.environ.get("VERIF_EVAL_REPO", "/repo")
+rc, out = sh("git -C %s status --porcelain" % REPO)
 if out.strip():
     print("refusing: /repo is not clean:\n" + out); sys.exit(2)
-rc, out = sh("git -C /repo apply %s" % os.path.abspath(patch))
+rc, out = sh("git -C %s apply %s" % (REPO, os.path.abspath(patch)))
 res["checks"] = {}
 try:
     for p in props:
-        rc, out = sh("/verif/bin/verif check %s --tier quick" % p, cwd="/verif")
+        rc, out = sh("/verif/bin/verif check %s --tier quick --repo %s" % (p, REPO), cwd="/verif")
         vio = [l[:300] for l in out.splitlines() if l.startswith("VIOLATION")]
         res["checks"][p] = {"exit": rc, "violations": vio, "summary": out.strip().splitlines()[-1] if out.strip() else ""}
 finally:
-    sh("git -C /repo checkout -- .")
+    sh("git -C %s checkout -- ." % REPO)
 res["detected_by"] = [p for p, r in res["checks"].items() if r["exit"] == 1]
 print(json.dumps(res, indent=1))
